@@ -279,5 +279,5 @@ func c10Run(w *W) {
 }
 
 func init() {
-	Register(&Workload{Prop: "C10", Name: "lifecycle", Faulty: true, MaxSteps: 8000, Run: c10Run})
+	Register(&Workload{Prop: "C10", Name: "lifecycle", Faulty: true, MaxSteps: 8000, Cells: []int{3, 4, 4, 2, 3}, Run: c10Run})
 }
